@@ -29,7 +29,9 @@ MonInit(cfg) ==
    lost |-> FALSE, idleOk |-> FALSE, eunc |-> FALSE, sctx |-> "", ccalled |-> FALSE, lline |-> <<>>, cprev |-> <<-1>>, eprev |-> <<-1>>, lastfail |-> <<-1, -1>>, lout |-> [k |-> "none", c |-> -1, args |-> <<>>, why |-> ""], owed |-> {}, rt |-> FALSE,
    bad |-> <<>>, ulog |-> <<>>, uncl |-> 0, txns |-> 0, units |-> 0, evs |-> 0, last |-> <<>>]
 
-AddBad(m, p, why) == [m EXCEPT !.bad = IF Len(@) < 12 THEN Append(@, [p |-> p, why |-> why, at |-> m.n, sid |-> m.cfg.sid]) ELSE @,
+\* at most 4 entries per tag and scenario are kept (a flood of one kind must not hide a contradiction of another kind)
+TagCount(bad, p) == Cardinality({i \in 1..Len(bad) : bad[i].p = p})
+AddBad(m, p, why) == [m EXCEPT !.bad = IF TagCount(@, p) < 4 /\ Len(@) < 48 THEN Append(@, [p |-> p, why |-> why, at |-> m.n, sid |-> m.cfg.sid]) ELSE @,
                                !.lost = TRUE]
 \* the monitor cannot tell what should happen (no property decides it): silent until the next quiescent point
 Unclassified(m) == [m EXCEPT !.lost = TRUE, !.uncl = @ + 1,
@@ -245,7 +247,7 @@ IsBusyRet(m, ret) ==
   IF ret < 0 THEN m
   ELSE IF m.lost THEN
        \* the line tracker is exact even while the monitor is lost: a line whose LF has not been consumed is partially received
-       IF ret = S_OK /\ PartialLine(m) THEN [m EXCEPT !.bad = IF Len(@) < 12 THEN Append(@, [p |-> "C18", why |-> "is_busy says idle while a command line is partially received", at |-> m.n, sid |-> m.cfg.sid]) ELSE @]
+       IF ret = S_OK /\ PartialLine(m) THEN [m EXCEPT !.bad = IF TagCount(@, "C18") < 4 /\ Len(@) < 48 THEN Append(@, [p |-> "C18", why |-> "is_busy says idle while a command line is partially received", at |-> m.n, sid |-> m.cfg.sid]) ELSE @]
        ELSE m
   ELSE IF ret = S_OK /\ (PartialLine(m) \/ m.pend \/ m.H # {}) THEN AddBad(m, "C18", "is_busy says idle while work is in flight")
   ELSE IF ret # S_OK /\ m.idleOk /\ ~PartialLine(m) THEN AddBad(m, "C18", "is_busy says busy although quiescent")
@@ -309,7 +311,9 @@ MatchByte(m, b) ==
                      ELSE IF u.tag = "U" THEN Unclassified(m)
                      ELSE LET k == h.p - h.lo
                               disclosed == u.alt # <<>> /\ k >= 0 /\ k < Len(u.alt) /\ Take(u.alt, k) = Take(h.body, k) /\ u.alt[k + 1] = b
-                          IN AddBad(m, IF disclosed THEN "C08" ELSE u.tag, <<"unit differs from what is owed at offset", h.p, b>>)
+                              m9 == AddBad(m, IF disclosed THEN "C08" ELSE u.tag, <<"unit differs from what is owed at offset", h.p, b>>)
+                          IN \* the unit is closed before its payload is complete: besides the property that owns the text, C11 ("no unit is truncated")
+                             IF b \in {CR, LF} /\ ~InNl(h) /\ ~disclosed THEN AddBad(m9, "C11", <<"unit truncated at offset", h.p>>) ELSE m9
           ELSE LET done == {h \in H1 : h.p = Len(h.r)} IN
                IF done = {} THEN [m EXCEPT !.H = H1]
                ELSE LET dc == {h \in done : h.who = "c"}  de == {h \in done : h.who = "e"}
@@ -497,7 +501,7 @@ LightC02(m, e) ==
   LET o == m.lout
       want == CASE o.k = "run" -> "run" [] o.k = "read" -> "read" [] o.k = "write" -> "write" [] o.k = "test" -> "test" [] OTHER -> "none"
   IN IF want = "none" \/ e.c # o.c \/ e.kind # want
-     THEN [m EXCEPT !.bad = IF Len(@) < 12 THEN Append(@, [p |-> C02Tag(m), why |-> <<"handler does not belong to the last command line", e.kind, e.c, o.k, o.c>>, at |-> m.n, sid |-> m.cfg.sid]) ELSE @]
+     THEN [m EXCEPT !.bad = IF TagCount(@, C02Tag(m)) < 4 /\ Len(@) < 48 THEN Append(@, [p |-> C02Tag(m), why |-> <<"handler does not belong to the last command line", e.kind, e.c, o.k, o.c>>, at |-> m.n, sid |-> m.cfg.sid]) ELSE @]
      ELSE m
 
 OnEvent(m, e) ==
